@@ -1,5 +1,99 @@
-(** C08 — proofs. *)
+(** C08 — proofs about the model of a precompile call (Model.v) for every facts record [F],
+    every body oracle, every calldata / decode result, call kind, value and gas. *)
 From Coq Require Import List ZArith Bool String Lia.
 Import ListNotations.
 Require Import Nib.C08.Model Nib.C08.Spec.
 Local Open Scope Z_scope.
+
+(** destruct the scrutinee of the outermost [match] / [if] of the goal (or of a hypothesis) *)
+Ltac dmatch :=
+  match goal with
+  | |- context [match ?x with _ => _ end] =>
+      match x with
+      | context [match _ with _ => _ end] => fail 1
+      | _ => destruct x eqn:?
+      end
+  end.
+Ltac dmatch_in H :=
+  match type of H with
+  | context [match ?x with _ => _ end] =>
+      match x with
+      | context [match _ with _ => _ end] => fail 1
+      | _ => destruct x eqn:?
+      end
+  end.
+
+(* ------------------------------------------------------------------ small facts *)
+
+Lemma is_alpha_nonzero : forall c, is_alpha c = true -> (c =? 0) = false.
+Proof. intros c H. unfold is_alpha, is_lower, is_upper in H. apply Z.eqb_neq. lia. Qed.
+
+Lemma denom_char_nonzero : forall c, denom_char c = true -> (c =? 0) = false.
+Proof.
+  intros c H. unfold denom_char, is_alpha, is_lower, is_upper, is_digit in H. apply Z.eqb_neq. lia.
+Qed.
+
+Lemma forallb_denom_no_nul : forall r, forallb denom_char r = true -> existsb (fun c => c =? 0) r = false.
+Proof.
+  induction r as [|c r IH]; simpl; intro H; [reflexivity|].
+  apply andb_prop in H. destruct H as [H1 H2]. rewrite (denom_char_nonzero _ H1), (IH H2). reflexivity.
+Qed.
+
+(** a denom accepted by sdk.ValidateDenom holds no NUL character *)
+Lemma valid_denom_no_nul : forall s, valid_denom s = true -> has_nul s = false.
+Proof.
+  intros [|c r] H; simpl in H; [discriminate|].
+  repeat (apply andb_prop in H; destruct H as [H ?]).
+  unfold has_nul. simpl. rewrite (is_alpha_nonzero _ H). simpl. apply forallb_denom_no_nul. assumption.
+Qed.
+
+Lemma wf_uint_no_overflow : forall v, (0 <=? v) && (v <? two256) = true -> int_from_big_panics v = false.
+Proof.
+  intros v H. apply andb_prop in H. destruct H as [A B]. apply Z.leb_le in A. apply Z.ltb_lt in B.
+  unfold int_from_big_panics. apply Z.leb_gt. rewrite Z.abs_eq by assumption. assumption.
+Qed.
+
+Lemma funds_wf_no_panic : forall l, forallb fund_wf l = true -> funds_panic l = false.
+Proof.
+  induction l as [|c l IH]; simpl; intro H; [reflexivity|].
+  apply andb_prop in H. destruct H as [H1 H2]. unfold funds_panic in *. simpl.
+  rewrite (wf_uint_no_overflow _ H1). simpl. apply IH. assumption.
+Qed.
+
+(* ------------------------------------------------------------------ validators never panic behind the guards *)
+
+Definition guards_all (F : facts) : bool :=
+  f_denom_guard F && f_amount_guard F && f_evm_denom_guard F && f_erc20_nul_guard F.
+
+Lemma wf_bits_no_overflow : forall v, (0 <=? v) = true -> (v <? two256) = true -> int_from_big_panics v = false.
+Proof. intros v A B. apply wf_uint_no_overflow. rewrite A, B. reflexivity. Qed.
+
+Lemma validate_no_panic : forall F m args,
+  guards_all F = true -> forallb arg_wf args = true -> validate F m args <> VPanic.
+Proof.
+  intros F m args G W. unfold guards_all in G.
+  apply andb_prop in G as [G G4]. apply andb_prop in G as [G G3]. apply andb_prop in G as [G1 G2].
+  unfold validate. rewrite G1, G2, G3, G4. rewrite ?andb_true_l.
+  destruct m; repeat dmatch; try discriminate; intro X; clear X; subst; simpl in W;
+    repeat match goal with
+           | H : _ && _ = true |- _ => apply andb_prop in H; destruct H
+           end;
+    repeat match goal with
+           | H : context [true && _] |- _ => rewrite andb_true_l in H
+           end;
+    repeat match goal with
+           | H : negb _ = false |- _ => apply negb_false_iff in H
+           end;
+    unfold new_coin_panics in *;
+    repeat match goal with
+           | H : valid_denom ?s = true, H2 : has_nul ?s = true |- _ =>
+               rewrite (valid_denom_no_nul _ H) in H2; discriminate
+           | A : (0 <=? ?v) = true, B : (?v <? two256) = true, H : int_from_big_panics ?v = true |- _ =>
+               rewrite (wf_bits_no_overflow _ A B) in H; discriminate
+           | H : forallb fund_wf ?l = true, H2 : funds_panic ?l = true |- _ =>
+               rewrite (funds_wf_no_panic _ H) in H2; discriminate
+           | H : valid_denom ?s = true, H2 : context [valid_denom ?s] |- _ => rewrite H in H2; simpl in H2
+           | H : has_nul ?s = false, H2 : has_nul ?s = true |- _ => rewrite H in H2; discriminate
+           | H : (?a <? 0) = false, H2 : (?a <? 0) = true |- _ => rewrite H in H2; discriminate
+           end; try discriminate.
+Qed.
